@@ -30,7 +30,7 @@ BUDGET = {
     "thorough": {"cases": 120000, "seconds": 900, "shards": 16},
 }
 REQUIRED_OBS = ["snapshots_compared", "predictions_compared", "ext:txt", "ext:csv", "model:supervised", "model:semi", "model:unsup",
-                "get_distances_checked", "asymmetric_metric_cases", "same_path_rewrite_checked"]
+                "get_distances_checked", "int16_dataset_cases", "normalised_request_first", "train_set_is_whole_file_shuffled", "asymmetric_metric_cases", "same_path_rewrite_checked"]
 MIN_NONTRIVIAL = 60
 FIELDS = ("cost", "pred", "predicted_label", "status", "root", "cluster_label", "density", "relevant")
 
@@ -45,7 +45,7 @@ def generate(rng, tier, idx):
     X = gen.to_domain(gen.make_dataset(rng, N, d, gc), kind)
     Y = gen.make_labels(rng, X, gen.pick(rng, ["random", "blob", "alternate"]))
     ext = "txt" if rng.random() < 0.5 else "csv"
-    n_tr = int(rng.integers(2, N))
+    n_tr = int(rng.integers(2, N)) if rng.random() < 0.85 else N          # sometimes EVERY row of the file, in a shuffled order
     if model == "semi":
         L = int(rng.integers(2, max(3, N - 1)))
         U = int(rng.integers(0, N - L + 1))
@@ -59,6 +59,10 @@ def generate(rng, tier, idx):
     else:
         I_tr = rng.permutation(N)[:n_tr]
         n_u = 0
+    int16 = False
+    if rng.random() < 0.25 and gc == "G2":
+        X = np.round(X)
+        int16 = True                       # the dataset is an int16 matrix: file and on-the-fly path must see the SAME dtype
     if len(I_tr) > 1 and list(I_tr) == sorted(I_tr):
         I_tr = I_tr[::-1]
     I_te = rng.integers(0, N, size=int(rng.integers(1, 9)))
@@ -70,7 +74,7 @@ def generate(rng, tier, idx):
     max_k = int(rng.integers(1, min(k_hi, 5) + 1))
     return {"model": model, "metric": name, "X": X.tolist(), "I_tr": [int(i) for i in I_tr], "Y_tr": [int(v) for v in Ytr],
             "n_unlabeled": int(n_u), "I_te": [int(i) for i in I_te], "ext": ext, "min_k": int(rng.integers(1, max_k + 1)), "max_k": max_k,
-            "gclass": gc}
+            "gclass": gc, "norm_first": bool(rng.random() < 0.5), "int16": int16}
 
 
 def _fit(case, m, X, Ytr, I_tr, use_index):
@@ -89,6 +93,9 @@ def check(case):
 
     res = Result()
     X = np.array(case["X"], dtype=float)
+    if case.get("int16"):
+        X = X.astype(np.int16)
+        res.see("int16_dataset_cases")
     I_tr = np.array(case["I_tr"], dtype=int)
     I_te = np.array(case["I_te"], dtype=int)
     Ytr = np.array(case["Y_tr"], dtype=int)
@@ -150,11 +157,14 @@ def check(case):
                 res.violate("equivalence", "C10/predictions-differ", f"{kind}/{name}/.{case['ext']}: predictions on-the-fly {va} vs pre-computed {vb} for test rows {case['I_te']}")
                 return res
         # get_distances of the fitted on-the-fly model
+        if case.get("norm_first"):
+            safe_call(A.get_distances, True)          # call order: a normalised request BEFORE the plain one must not change the latter
+            res.see("normalised_request_first")
         gd = safe_call(A.get_distances)
         if gd.ok:
             nodes = A.subgraph.nodes
             n = len(nodes)
-            ref = np.array([[float(fn(np.array(nodes[i].features, dtype=float), np.array(nodes[j].features, dtype=float))) for j in range(n)] for i in range(n)])
+            ref = np.array([[float(fn(np.array(nodes[i].features), np.array(nodes[j].features))) for j in range(n)] for i in range(n)])   # copies, same dtype as the model's
             res.see("get_distances_checked")
             got = np.asarray(gd.value, dtype=float)
             if got.shape != ref.shape or not np.array_equal(got, ref, equal_nan=True):
@@ -167,8 +177,12 @@ def check(case):
                     res.violate("get_distances", "C10/get_distances-normalize-wrong", f"{kind}/{name}: get_distances(normalize=True) is not the min-max rescaling")
                     return res
                 res.see("get_distances_normalized_checked")
+                again = safe_call(A.get_distances)
+                if not again.ok or not np.array_equal(np.asarray(again.value, dtype=float), ref, equal_nan=True):
+                    res.violate("get_distances", "C10/get_distances-wrong", f"{kind}/{name}: get_distances() after a normalised request no longer equals the metric on the ordered pairs")
+                    return res
         # ---- history: the routine writes ANOTHER dataset of the same shape to the SAME path; a model built afterwards must see it
-        X2 = np.roll(X, 1, axis=0) * 1.25 + (0.0 if T[name][1] == "Q" else 0.125)
+        X2 = np.roll(np.asarray(X, dtype=float), 1, axis=0) * 1.25 + (0.0 if T[name][1] == "Q" else 0.125)
         w2 = safe_call(g.pre_compute_distance, X2.copy(), path, name)
         b2 = safe_call(build_model, kind, name, pre=path, **kw) if w2.ok else w2
         if not b2.ok:
@@ -184,7 +198,9 @@ def check(case):
             return res
         if "s" not in T[name][2]:
             res.see("asymmetric_metric_cases")
-        res.nontrivial = len(X) > len(I_tr) and len(I_te) >= 1
+        res.nontrivial = len(X) >= len(I_tr) and len(I_te) >= 1
+        if len(X) == len(I_tr):
+            res.see("train_set_is_whole_file_shuffled")
         res.cell(kind, name, case["ext"])
         return res
     finally:
